@@ -1244,6 +1244,26 @@ pub fn verdict_findings(h: &Hist, sequential: bool) -> Vec<Finding> {
             h.base_facts(Finding::new("Panic", format!("thread {} panicked: {}", t, msg)))
                 .fact("message", msg.split(" at ").next().unwrap_or("").to_string()),
         ),
+        Verdict::TryOpSpins(t, b) => {
+            let a = h.ex.outcome.threads.iter().find(|x| x.tid == *t).map(|x| x.activity);
+            out.push(
+                h.base_facts(Finding::new(
+                    "CallDoesNotReturn",
+                    format!(
+                        "a try operation executed more than {} scheduling points in a row while no other thread changed anything, and had not returned: {:?}",
+                        b,
+                        a.map(|a| (CallKind::from_code(a.kind), a.handle, a.stream, a.op_idx))
+                    ),
+                ))
+                .fact(
+                    "call",
+                    a.and_then(|a| CallKind::from_code(a.kind))
+                        .map(|k| format!("{:?}", k))
+                        .unwrap_or_default(),
+                )
+                .fact("spinning_not_solo", true),
+            )
+        }
         Verdict::SoloBound(t, b) => {
             let a = h.ex.outcome.threads.iter().find(|x| x.tid == *t).map(|x| x.activity);
             out.push(
